@@ -126,6 +126,11 @@ pub fn trace(kind: &str, data: &[u8], extra: u64) {
     }
 }
 
+/// tell the stall watchdog that the harness is alive (used while waiting for a timed probe)
+pub fn beat() {
+    HEARTBEAT.fetch_add(1, Ordering::Relaxed);
+}
+
 /// run f, converting a panic into Err(PanicInfo)
 pub fn guard<T>(f: impl FnOnce() -> T) -> Result<T, PanicInfo> {
     IN_CALL.store(true, Ordering::Relaxed);
